@@ -49,6 +49,8 @@ var c12Big = []struct{ name, body string }{
 	{"big1m.txt", c12BigBody(1<<20 + 5000)},
 }
 
+const c12LinkShort = "aa cc bb aa cc bb aa cc bb aa cc bb aa cc bb aa cc bb aa cc bb aa cc bb aa cc bb aa cc bb aa cc bb aa cc bb aa cc bb aa cc bb aa cc bb zqa"
+
 func c12BigBody(n int) string {
 	var sb strings.Builder
 	for i := 0; sb.Len() < n; i++ {
@@ -109,11 +111,14 @@ func c12Trees(c *vrep.Ctx) {
 			for _, n := range c12Big {
 				options = append(options, c12File{d, n.name, n.body})
 			}
+			// symbolic links to regular files kept elsewhere (a licenses directory assembled from
+			// links): one with a short body, one with a 5 KB body; the link itself is a few bytes
+			options = append(options, c12File{d, "link.txt", "\x00LINK:" + c12LinkShort}, c12File{d, "linkbig.txt", "\x00LINK:" + c12BigBody(5000)})
 		}
 	}
 	leaves := []string{"corp", "nest/ed"}
 	queries := [][]byte{[]byte("zqa aa bb cc aa bb zqb"), []byte("zqa cc bb aa cc bb aa"), []byte("gg hh ii gg hh\njj kk ll jj kk"), []byte("zqa")}
-	c.R.Rule = fmt.Sprintf("all sets of <=%d files drawn from depth 1..5 x names {a.txt, b.txt, x.md, txt, y.ptxt, empty e.txt, 0.txt (sorts before the directories), a directory named dir.txt} plus 66 KB, 135 KB and 1.05 MB files at variant depth (%d options), built in a private temp dir, x %d spellings of the directory (absolute/relative, ./ prefix, trailing separator, doubled separator, through .., and '.', './', '../name' with the directory as cwd) x {single, multi-component} directory; LoadLicenses must not panic or fail; files shallower than category/name/variant or not ending in 'txt' are ignored; if every remaining file sits at depth 3 the corpus (keys and word sequences, white-box) and Match on a query menu equal a classifier built by AddContent per file; non-trivial = distinct (tree, spelling) cases with at least one loadable file", maxFiles, len(options), len(c12Spellings))
+	c.R.Rule = fmt.Sprintf("all sets of <=%d files drawn from depth 1..5 x names {a.txt, b.txt, x.md, txt, y.ptxt, empty e.txt, 0.txt (sorts before the directories), a directory named dir.txt} plus 66 KB, 135 KB and 1.05 MB files and two symbolic links to regular files outside the tree (short and 5 KB targets) at variant depth (%d options), built in a private temp dir, x %d spellings of the directory (absolute/relative, ./ prefix, trailing separator, doubled separator, through .., and '.', './', '../name' with the directory as cwd) x {single, multi-component} directory; LoadLicenses must not panic or fail; files shallower than category/name/variant or not ending in 'txt' are ignored; if every remaining file sits at depth 3 the corpus (keys and word sequences, white-box) and Match on a query menu equal a classifier built by AddContent per file; non-trivial = distinct (tree, spelling) cases with at least one loadable file", maxFiles, len(options), len(c12Spellings))
 	c.Bound("max_files", maxFiles)
 	c.Bound("spellings", len(c12Spellings))
 	tmp, err := os.MkdirTemp("", "verif-c12-")
@@ -178,7 +183,14 @@ func c12Trees(c *vrep.Ctx) {
 				os.MkdirAll(p, 0o755) // a directory, not a file: never a license
 				continue
 			}
-			os.WriteFile(p, []byte(f.body), 0o644)
+			if strings.HasPrefix(f.body, "\x00LINK:") {
+				f.body = f.body[len("\x00LINK:"):]
+				target := filepath.Join(parent, "target-"+f.name)
+				os.WriteFile(target, []byte(f.body), 0o644)
+				os.Symlink(target, p)
+			} else {
+				os.WriteFile(p, []byte(f.body), 0o644)
+			}
 			if !strings.HasSuffix(f.name, "txt") || f.depth < 3 {
 				continue // must be ignored
 			}
